@@ -16,37 +16,33 @@ Proof. exact conformant_never_crashes. Qed.
 
 Theorem C20_outputs_are_those_of_the_latest_text :
   forall (A : Type) (analyse : text -> A) (h : history),
-  single_change h = true -> run A analyse [] h = spec_run A analyse pick_last [] h.
+  run A analyse [] h = spec_run A analyse [] h.
 Proof. exact run_is_latest. Qed.
 
 Theorem C20_request_answered_from_latest_text :
   forall (A : Type) (analyse : text -> A) past k u line ch rest,
   let h := past ++ Request k u line ch :: rest in
-  conformant h = true -> single_change h = true ->
+  conformant h = true ->
   exists t l, latest past u = Some t /\ locate t k line ch = Some l
               /\ nth_error (run A analyse [] h) (length past) = Some (Answer k u (analyse t) l).
 Proof. exact request_answered_from_latest. Qed.
 
 Theorem C20_open_published_from_latest_text :
   forall (A : Type) (analyse : text -> A) past u t rest,
-  let h := past ++ Open u t :: rest in
-  single_change h = true ->
-  nth_error (run A analyse [] h) (length past) = Some (Publish u (analyse t))
+  nth_error (run A analyse [] (past ++ Open u t :: rest)) (length past) = Some (Publish u (analyse t))
   /\ latest (past ++ [Open u t]) u = Some t.
 Proof. exact open_published_from_latest. Qed.
 
 Theorem C20_change_published_from_latest_text :
-  forall (A : Type) (analyse : text -> A) past u t rest,
-  let h := past ++ Change u [t] :: rest in
-  single_change h = true ->
-  nth_error (run A analyse [] h) (length past) = Some (Publish u (analyse t))
-  /\ latest (past ++ [Change u [t]]) u = Some t.
+  forall (A : Type) (analyse : text -> A) past u c r rest,
+  nth_error (run A analyse [] (past ++ Change u (c :: r) :: rest)) (length past)
+    = Some (Publish u (analyse (last r c)))
+  /\ latest (past ++ [Change u (c :: r)]) u = Some (last r c).
 Proof. exact change_published_from_latest. Qed.
 
-Theorem C20_server_takes_first_entry_of_a_change :
-  forall (A : Type) (analyse : text -> A) (h : history),
-  conformant h = true -> run A analyse [] h = spec_run A analyse pick_first [] h.
-Proof. exact run_is_latest_first. Qed.
+Theorem C20_empty_change_is_silent :
+  forall (A : Type) (analyse : text -> A) s u, step A analyse s (Change u []) = (s, Silent).
+Proof. exact empty_change_is_silent. Qed.
 
 Theorem C20_documents_are_independent :
   forall (A : Type) (analyse : text -> A) s o u,
@@ -54,9 +50,8 @@ Theorem C20_documents_are_independent :
 Proof. exact step_other_document. Qed.
 
 Theorem C20_one_publication_per_text_notification :
-  forall (A : Type) (analyse : text -> A) h u,
-  conformant h = true ->
-  map (publishes_for A u) (run A analyse [] h) = map (carries_text_for u) h.
+  forall (A : Type) (analyse : text -> A) h s u,
+  map (publishes_for A u) (run A analyse s h) = map (carries_text_for u) h.
 Proof. exact one_publication_per_text. Qed.
 
 Theorem C20_request_without_document_crashes :
@@ -64,16 +59,10 @@ Theorem C20_request_without_document_crashes :
   lookup u s = None -> step A analyse s (Request k u line ch) = (s, Crash).
 Proof. exact request_without_document_crashes. Qed.
 
-Theorem C20_empty_change_crashes :
-  forall (A : Type) (analyse : text -> A) s u, step A analyse s (Change u []) = (s, Crash).
-Proof. exact empty_change_crashes. Qed.
-
-Theorem C20_multi_entry_change_uses_first_refuted :
-  let h := [Open 7 t1; Change 7 [t2; t3]; Request Hover 7 0 0] in
-  conformant h = true /\ single_change h = false
-  /\ latest h 7 = Some t3 /\ latest_first h 7 = Some t2
-  /\ run_id [] h = [Publish 7 t1; Publish 7 t2; Answer Hover 7 t2 (AtOffset 0)].
-Proof. exact multi_entry_change_uses_first_refuted. Qed.
+Theorem C20_request_on_closed_document_refuted :
+  run_id [] [Request Hover 7 0 0] = [Crash]
+  /\ run_id [] [Open 7 t1; Close 7; Request Completion 7 0 0] = [Publish 7 t1; Silent; Crash].
+Proof. exact request_on_closed_document_refuted. Qed.
 
 (* (b) positions *)
 
@@ -121,12 +110,11 @@ Print Assumptions C20_outputs_are_those_of_the_latest_text.
 Print Assumptions C20_request_answered_from_latest_text.
 Print Assumptions C20_open_published_from_latest_text.
 Print Assumptions C20_change_published_from_latest_text.
-Print Assumptions C20_server_takes_first_entry_of_a_change.
+Print Assumptions C20_empty_change_is_silent.
 Print Assumptions C20_documents_are_independent.
 Print Assumptions C20_one_publication_per_text_notification.
 Print Assumptions C20_request_without_document_crashes.
-Print Assumptions C20_empty_change_crashes.
-Print Assumptions C20_multi_entry_change_uses_first_refuted.
+Print Assumptions C20_request_on_closed_document_refuted.
 Print Assumptions C20_position_to_offset_within_text.
 Print Assumptions C20_position_to_offset_on_character_boundary.
 Print Assumptions C20_position_to_offset_in_addressed_line.
